@@ -534,7 +534,7 @@ main(int argc, char *argv[])
 		}
 	}
 	/* structured families with an exact oracle (c18_families.h) */
-	ex_meta("families", "prefix x value x tail x suffix x {final newline, none}, all combinations, one read + every composition with <= %d cuts; expected = prefix, "
+	ex_meta("families", "prefix x value x tail x suffix x {final newline, none}, all combinations, one read + every composition with <= %d cuts (quick: compositions only for the newline-terminated variant); expected = prefix, "
 		"argument-mode result of the value under the same -i/-f, tail copied (second value: its result), suffix; a zone-like tail may instead be taken into the "
 		"value (argument-mode result of value+tail). Families: tails (malformed minute/second/fraction and short zone offsets behind date, date-HM, date-HMS, HMS, HM), "
 		"padded-dmy/-dth/-hm (1-digit fields under -i %%d/%%m/%%Y, %%dth %%B %%Y, %%H:%%M behind blank, letters, digit+blank), epoch (-i %%s, 1..11 digits), epoch-comma (-i %%s, with the comma as needle), compact "
